@@ -166,7 +166,7 @@ def finish(pid, tier, seed, prof, recs, libs, timeout, known, t0, a, extra_cov=N
             n_viol += 1
             gcase = {"global": True, "property": pid, "tier": tier, "seed": seed, "indices": [recs[0]["index"], recs[-1]["index"] + 1],
                      "index": -1, "lifetimes": [], "scripts": []}
-            path = runner.write_replay(pid, seed, gcase, v, None)
+            path = runner.write_replay(pid, seed, gcase, v, [json.dumps(ginfo, sort_keys=True, default=float)])
             print("VIOLATION property=%s replay=%s" % (pid, path))
             print("  oracle=%s (pooled over cases %d..%d)\n  %s" % (v["oracle"], recs[0]["index"], recs[-1]["index"], v["detail"]))
             exit_code = 1
